@@ -126,6 +126,91 @@ def run_response(wd, rows, exps, host):
         getattr(type(rg.handler._callbacks), '_ThreadLocal__store', {}).pop(threading.get_ident(), None)
 
 
+def registered_in_code(c, wd, rows_list):
+    """The same rows registered through Deep.register_tracepoint (twice, with a service update in between): every
+    registration results in exactly its own actions - once per permitted hit."""
+    from .. import configsync_drv as CS
+    from deep.api.tracepoint.tracepoint_config import MetricDefinition
+    host = R.write_host(wd, HOST)
+    mod, path, marks = host
+    base = path.rsplit('/', 1)[-1]
+    shown = 0
+    for row in rows_list:
+        sysm = CS.SyncSystem()
+        plugin = R.role_plugin('rec', {'log', 'metric', 'span'})
+        sysm.cfg.plugins = [plugin]
+        push = R.RecordingPush()
+        sysm.deep.trigger_handler._push_service = push
+        clock = R.VirtualClock().install()
+        try:
+            msgs = [tp_message(i, row, base, marks) for i in (1, 2)]
+            problems = []
+            try:
+                for m in msgs:
+                    metrics = [MetricDefinition(x.name, 'COUNTER') for x in m.metrics]
+                    sysm.deep.register_tracepoint(m.path, m.line_number, dict(m.args), list(m.watches), metrics)
+                    sysm.svc += 1
+                    sysm.do('PollAnswer', ('update',))
+                    while sysm.pool.queue:
+                        sysm.pool.take('W1')
+                        sysm.pool.apply('W1')
+            except ValueError as ex:
+                interp = LocKindOk(row)
+                if interp:
+                    problems.append('registration refused: %r' % (ex,))
+                msgs = []
+            if msgs:
+                tf_rig = R.Rig.__new__(R.Rig)
+                tf_rig.handler = sysm.deep.trigger_handler
+                tf_rig.escaped, tf_rig.returned_none, tf_rig.events, tf_rig.on_event = [], 0, 0, None
+                clock.set(1)
+                res = R.Rig.run(tf_rig, mod.caller, 5, only_file=path)
+                if res != ('ok', 13) or tf_rig.escaped:
+                    problems.append('host changed / handler raised %r %r' % (res, tf_rig.escaped))
+                fires = LocKindOk(row) and row['condition'] != 'false'
+                want = 2 if fires else 0
+                if row['snapshot'] != 'no_collect':
+                    got = sum(1 for s_, _ in push.snapshots if s_.watches == [] or True)
+                    got = len([1 for s_, _ in push.snapshots if s_.tracepoint.path == base])
+                    if got != want:
+                        problems.append('%d snapshots for two registrations of %s, expected %d' % (
+                            got, {k: v for k, v in row.items() if v not in ('absent', 0)}, want))
+                if row['span'] != 'absent':
+                    got = len([1 for c_ in plugin.calls if c_[0] == 'open'])
+                    if got != want:
+                        problems.append('%d spans for two registrations, expected %d' % (got, want))
+                if row['metrics']:
+                    got = len([1 for c_ in plugin.calls if c_[0] == 'metric'])
+                    if got != want * row['metrics']:
+                        problems.append('%d metric calls for two registrations, expected %d' % (got, want * row['metrics']))
+            c.traces_validated += 1
+            c.note_case(key=('registered', str(row)), nontrivial=True)
+            if problems:
+                p_ = c.save_replay({'direction': 'S2C', 'module': 'TriggerTable', 'kind': 'registered-in-code',
+                                    'row': row, 'problems': problems})
+                if c.violation('registered in code %s: %s' % (row, problems[:2]), p_):
+                    shown += 1
+                    if shown >= 4:
+                        break
+        finally:
+            clock.uninstall()
+            import threading
+            getattr(type(sysm.deep.trigger_handler._callbacks), '_ThreadLocal__store', {}).pop(threading.get_ident(), None)
+    sys.modules.pop(mod.__name__, None)
+
+
+def LocKindOk(row):
+    """Interpretable(row) of the spec, restated for rows that are registered directly."""
+    stage = row['stage']
+    if stage == 'absent':
+        stage = 'method_start' if (row['span'] == 'method' or row['method_name'] == 'present') else 'line_start'
+    if stage in ('line_start', 'line_end', 'line_capture'):
+        return True
+    if stage in ('method_start', 'method_end', 'method_capture'):
+        return row['method_name'] == 'present'
+    return False
+
+
 def replay(c, behs, wd, kind, limit_shown=8):
     host = R.write_host(wd, HOST)
     shown = 0
@@ -173,7 +258,14 @@ def run(c):
                           'deviation PoisonsResponse', what='OnlyItself')
     sim = tlc.simulate('TriggerTable', mc_cfg(n=1, grid='full'), num=120 if quick else 6000, depth=14, seed=c.seed + 2)
     c.transitions += sim.generated
-    replay(c, [b for b in sim.behaviours if len(b[-1][2]['resp']) == 1], wd, 'single')
+    singles = [b for b in sim.behaviours if len(b[-1][2]['resp']) == 1]
+    replay(c, singles, wd, 'single')
+    rows = []
+    for b in singles:
+        r_ = to_json(b[-1][2]['resp'])[0]
+        if r_['fire_count'] in ('-1', '2') and r_['fire_period'] == '0' and r_ not in rows:
+            rows.append(r_)
+    registered_in_code(c, wd, rows[:12 if quick else 300])
     sim = tlc.simulate('TriggerTable', mc_cfg(n=3, grid='small'), num=60 if quick else 3000, depth=40, seed=c.seed + 4)
     c.transitions += sim.generated
     replay(c, [b for b in sim.behaviours if len(b[-1][2]['resp']) >= 2], wd, 'response')
